@@ -1,4 +1,5 @@
 import HapVerif.Model.C03
+import HapVerif.Model.C03Ep
 import HapVerif.Drv.Common
 /-!
 Driver of C03 (and the op-text parser shared with C15 / C06).
@@ -264,8 +265,80 @@ def handleWorld (toks : List String) (impl : String) : Verdict :=
       | _, _ => bad "parse-impl"
     | _ => bad "parse-impl-fields"
 
+/-! ## mode `ep`: hand-maintained Endpoints objects (Model/C03Ep.lean, after seed C03g)
+
+`C03 ep d<0|1> <svcports> <ingport> <subsets> => <ready> <notready> <backends>` (or `=> noport <backends>`):
+`svcports` = `name:port:targetPort+...` (`_` unnamed, targetPort `0` = unset), `ingport` the port the Ingress
+backend names, `subsets` = `-` or `/`-joined `ready;notready;ports` with `,`-joined addresses (`-` none) and
+`,`-joined ports `name:number:TCP|UDP|SCTP`; `ready` / `notready` = the listings of the real
+`convutils.CreateEndpoints` as returned (`ip:port+...`), `backends` = `id=ip:port:weight+...` of the real ingress
+converter run on an Ingress that names the port. -/
+
+def parseProto (s : Str) : C03Ep.Proto :=
+  if s = "UDP".toList then .udp else if s = "SCTP".toList then .sctp else .tcp
+
+def parseList (c : Char) (s : Str) : List Str := if s = ['-'] ∨ s.isEmpty then [] else splitOnC c s
+
+def parseSubset (s : Str) : Option C03Ep.Subset :=
+  match splitOnC ';' s with
+  | [r, n, ps] =>
+    ((parseList ',' ps).mapM fun p =>
+      match splitOnC ':' p with
+      | [nm, num, pr] => some (⟨unq nm, atoi num, parseProto pr⟩ : C03Ep.EpPortE)
+      | _ => none).map fun ports => ⟨parseList ',' r, parseList ',' n, ports⟩
+  | _ => none
+
+def parseTarget (s : Str) : Option (Str × Nat) :=
+  match splitOnC ':' s with
+  | [ip, p] => some (ip, atoi p)
+  | _ => none
+
+def showTargets (l : List (Str × Nat)) : String :=
+  if l.isEmpty then "-" else "+".intercalate (l.map fun t => str (C03Ep.targetStr t))
+
+def epBackendId (target : Str) : Str := "default_legacy_".toList ++ target
+
+def showEpOut (o : Option C03Ep.Out) : String :=
+  match o with
+  | none => "noport -"
+  | some out =>
+    showTargets out.ready ++ " " ++ showTargets out.notReady ++ " " ++
+      showBackends (out.backend.toList.map fun (t, l) => (epBackendId t, l))
+
+def handleEp (args : List String) (impl : String) : Verdict :=
+  match args with
+  | [d, ps, ing, subs] =>
+    match (parseList '/' subs.toList).mapM parseSubset with
+    | none => bad "parse-subsets"
+    | some eps =>
+      let c : C03Ep.Case := ⟨parsePorts ps.toList, ing.toList, d = "d1", eps⟩
+      let m := C03Ep.run c
+      let implOut : Option (Option C03Ep.Out) :=
+        match words impl with
+        | ["noport", bs] =>
+          match parseItems parseBackend bs with
+          | some [] => some none
+          | _ => none
+        | [r, n, bs] =>
+          match parseItems parseTarget (r.replace "+" ","), parseItems parseTarget (n.replace "+" ","),
+                parseItems parseBackend bs with
+          | some r, some n, some [] => some (some ⟨r, n, none⟩)
+          | some r, some n, some [(id, l)] =>
+            some (some ⟨r, n, some (id.drop "default_legacy_".length, l)⟩)
+          | _, _, _ => none
+        | _ => none
+      match implOut with
+      | none => { model := showEpOut m, agree := false, oracle := some "unreadable-output", trivial := false }
+      | some o =>
+        { model := showEpOut m,
+          agree := showEpOut m = impl,
+          oracle := C03Ep.oracle c o,
+          trivial := m.isNone || eps.isEmpty }
+  | _ => bad "C03-ep"
+
 def handle (args : List String) (impl : String) : Verdict :=
   match args with
+  | "ep" :: rest => if impl = "PANIC" then { model := "-", agree := false, oracle := some "panic-ep" } else handleEp rest impl
   | "world" :: toks => if impl = "SKIP" then { model := "skip", agree := true, oracle := none, trivial := true } else handleWorld toks impl
   | _ => bad "C03"
 
